@@ -158,6 +158,9 @@ def eval_channels(case) -> Outcome:
 
     out = Outcome()
     base = {"streams": case["streams"], "utilities": case["utilities"]}
+    if case.get("zone_tree"):
+        base["zone_tree"] = case["zone_tree"]
+        out.labels.add("explicit-zone-tree")
     opts = case.get("options")
     if opts:
         base["options"] = opts
@@ -206,6 +209,13 @@ def eval_channels(case) -> Outcome:
                     compare("model", r, "Site")
                 else:
                     out.fail("C16.channel_model_raises", f"model channel raised {r}: {call_sut.last_message}")
+                # a caller that keeps its validated model and analyses it again gets the same problem again
+                S.clear_graph_accumulator()
+                okr, r = call_sut(pinch_analysis_service, model, "Site")
+                if okr:
+                    compare("model_again", r, "Site")
+                else:
+                    out.fail("C16.channel_model_again_raises", f"second analysis of the same validated model raised {r}: {call_sut.last_message}")
             elif ch == "vu":
                 okr, r = call_sut(pinch_analysis_service, vu_case(base), "Site")
                 if okr:
@@ -395,6 +405,16 @@ def channel_case(draw, tier):
     chans = draw(st.lists(st.sampled_from(["model", "vu", "vu_mixed", "json", "from_json", "csvdir", "csvpair", "xlsx"]), min_size=3, max_size=5, unique=True))
     ops = draw(st.lists(st.sampled_from(["target", "target", "export"]), min_size=0, max_size=3))
     case = {"streams": ss, "utilities": us, "channels": chans, "ops": ops, "preload": draw(st.integers(0, 2)) == 0, "preload_same_path": draw(st.booleans()), "reload_model": draw(st.integers(0, 2)) == 0}
+    if all("/" not in z and "." not in z and not z.isdigit() for z in zones) and draw(st.integers(0, 3)) == 0:
+        # the hierarchy as a user zone tree in generic spellings; file formats without a tree sheet are left out
+        alias = draw(st.sampled_from(["Zone", "Process Zone", "Sub-Zone"]))
+        case["zone_tree"] = {"name": "Site", "type": draw(st.sampled_from(["Site", "Zone"])), "children": [{"name": z, "type": alias, "children": None} for z in zones]}
+        if draw(st.booleans()):
+            ss[0]["zone"] = "Site"  # a stream attached to the root zone itself
+        chans = [c for c in chans if c in ("model", "vu", "vu_mixed", "json")]  # from_json names the project "Untitled", the tree names its root "Site"
+        if "model" not in chans:
+            chans.append("model")
+        case["channels"] = chans
     if "vu_mixed" in chans:
         case["spelling"] = draw(st.lists(st.integers(0, 3), min_size=2, max_size=11).filter(lambda l: any(l) and not all(l)))
     if draw(st.integers(0, 3)) == 0:
